@@ -30,7 +30,59 @@ func elemPool(t reflect.Type, sc Scope, k int) []Gen {
 			break
 		}
 	}
+	// a type that holds a map: make sure one value has a map with several entries
+	// (hashing walks the keys in an order of its own)
+	if len(out) == k && containsKind(t, reflect.Map, map[reflect.Type]bool{}) {
+		have := false
+		for _, g := range out {
+			have = have || hasMultiEntryMap(Addressable(g()), 0)
+		}
+		if !have {
+			for _, g := range p {
+				if hasMultiEntryMap(Addressable(g()), 0) {
+					out[k-1] = g
+					break
+				}
+			}
+		}
+	}
 	return out
+}
+
+// hasMultiEntryMap reports whether a map with at least two entries is reachable in v.
+func hasMultiEntryMap(v reflect.Value, depth int) bool {
+	if depth > 6 {
+		return false
+	}
+	v = access(v)
+	switch v.Kind() {
+	case reflect.Map:
+		if v.Len() >= 2 {
+			return true
+		}
+		for _, k := range v.MapKeys() {
+			if hasMultiEntryMap(Addressable(v.MapIndex(k)), depth+1) {
+				return true
+			}
+		}
+	case reflect.Ptr, reflect.Interface:
+		if !v.IsNil() {
+			return hasMultiEntryMap(v.Elem(), depth+1)
+		}
+	case reflect.Slice, reflect.Array:
+		for i := 0; i < v.Len(); i++ {
+			if hasMultiEntryMap(v.Index(i), depth+1) {
+				return true
+			}
+		}
+	case reflect.Struct:
+		for i := 0; i < v.NumField(); i++ {
+			if hasMultiEntryMap(v.Field(i), depth+1) {
+				return true
+			}
+		}
+	}
+	return false
 }
 
 // allLists enumerates index lists of length 0..maxLen over k symbols.
